@@ -72,7 +72,7 @@ def detect_quirks():
         q["rangeFix"] = bool(re.search(r"\bstart\s*>\s*end\b|\bend\s*<\s*start\b", unfiltered))
         # repaired form: the consumer's rows are selected from a range walk of entries_by_id by comparing the row's consumer
         q["filterFix"] = bool(re.search(r"\.range\([^)]*\)[^;]*\.filter\([^;]*\.consumer\s*==", gr, re.S)) and "consumer_ids" not in gr
-    ap = body(cg, r"pub\s+fn\s+add_pending\s*\([^{]*\{")
+    ap = body(cg, r"pub\s+fn\s+add_pending\s*(?:<[^>]*>)?\s*\([^{]*\{")
     if ap is None:
         problems.append("ConsumerGroup::add_pending not found")
         q["redeliverFix"] = False
